@@ -54,8 +54,17 @@ def materialize_defaults(value: Any) -> None:
   def traverse(node, state: daglish.State):
     if isinstance(node, config.Buildable):
       parameters = node.__signature_info__.parameters.values()
+      # Set once a positional-only parameter without a default is unset: the
+      # positional-only parameters behind it cannot be passed without it (a
+      # `fdl.Partial` that leaves it open would no longer build).
+      positional_gap = False
       for index, arg in enumerate(parameters):
         if arg.default is arg.empty:
+          if (
+              arg.kind == arg.POSITIONAL_ONLY
+              and index not in node.__arguments__
+          ):
+            positional_gap = True
           continue
         if dataclasses.is_dataclass(
             node.__fn_or_cls__
@@ -65,7 +74,7 @@ def materialize_defaults(value: Any) -> None:
           continue
         if arg.kind == arg.POSITIONAL_ONLY:
           # Positional-only arguments are stored (and set) by index.
-          if index not in node.__arguments__:
+          if index not in node.__arguments__ and not positional_gap:
             node[index] = arg.default
         elif arg.name not in node.__arguments__:
           setattr(node, arg.name, arg.default)
